@@ -49,6 +49,15 @@ func importMatches(pkg, imp *types.Package, name string) bool {
 	return false
 }
 
+// typeArgText is the text of a type argument of typeis/unbox/inrange; pointer
+// types are written as strings, e.g. typeis(x, "*HAMTDirectory").
+func typeArgText(x Expr) string {
+	if s, ok := x.(*EStr); ok {
+		return s.Val
+	}
+	return x.String()
+}
+
 type evalError struct{ msg string }
 
 func efail(format string, a ...any) { panic(evalError{fmt.Sprintf(format, a...)}) }
@@ -754,14 +763,14 @@ func (e *Env) call(x *ECall) Val {
 	case "typeis":
 		// typeis(x, T): dynamic type of interface value x is T
 		v := e.eval(x.Args[0])
-		gt, _ := e.resolveTypeText(x.Args[1].String())
+		gt, _ := e.resolveTypeText(typeArgText(x.Args[1]))
 		if gt == nil {
 			efail("typeis: unknown type %s", x.Args[1])
 		}
 		return Val{T: tEq(app(SInt, "typeof", v.T), c.typeTag(gt)), GT: boolT}
 	case "unbox":
 		v := e.eval(x.Args[0])
-		gt, _ := e.resolveTypeText(x.Args[1].String())
+		gt, _ := e.resolveTypeText(typeArgText(x.Args[1]))
 		if gt == nil {
 			efail("unbox: unknown type %s", x.Args[1])
 		}
@@ -769,7 +778,7 @@ func (e *Env) call(x *ECall) Val {
 	case "inrange":
 		// inrange(x, T): x fits Go integer type T (int mode)
 		v := e.eval(x.Args[0])
-		gt, _ := e.resolveTypeText(x.Args[1].String())
+		gt, _ := e.resolveTypeText(typeArgText(x.Args[1]))
 		return Val{T: c.typeRange(v.T, gt), GT: boolT}
 	}
 	if sf, ok := c.db.specs[id.Name]; ok && sf.Macro {
